@@ -32,6 +32,7 @@ func ip4(u uint32) string {
 type Sess struct {
 	LocalAS, RemoteAS uint32
 	RouterID          uint32 // server router id
+	RouterAddr        string // if set, the textual router id handed to NewServer instead (e.g. the IPv4-mapped form)
 	Hold              int    // local hold time in seconds; -1 = library default (90)
 	Inbound           bool
 	Plugin            func(w *world.World) *world.Plugin
@@ -68,7 +69,11 @@ func (s *Sess) Run(ch vrt.Chooser, trace bool) (*world.World, *vrt.Exec) {
 		if rid == 0 {
 			rid = 0x0a000001
 		}
-		w.NewServer(ip4(rid))
+		if s.RouterAddr != "" {
+			w.NewServer(s.RouterAddr)
+		} else {
+			w.NewServer(ip4(rid))
+		}
 		pl := s.Plugin(w)
 		opts := append([]corebgp.PeerOption{}, s.Opts...)
 		if s.Hold >= 0 {
